@@ -115,7 +115,12 @@ struct Hist
   // ---- identity
   uint64_t seed = 0, idx = 0; bool udp = false; std::string cfgDesc;
   const char *eng() const { return udp ? "udp" : "tcp"; }
-  std::shared_ptr<Transport> T;
+  std::shared_ptr<Transport> T;        // the application's owning handle (driver and actor threads while they run)
+  std::atomic<Transport *> Traw{nullptr}; // what callbacks use; nulled before the last owner is dropped (a weak_ptr that no longer locks)
+  Transport *tp() const { return Traw.load(); }
+  std::atomic<bool> implGone{false};   // set when the transport's callback storage (Transport::Impl) has been destroyed
+  struct Gone { std::atomic<bool> *f; ~Gone() { f->store(true); } };
+  std::shared_ptr<Transport> doomOwner; std::atomic<bool> doomArmed{false}, doomDone{false}; // last owner handed to a callback (mu)
   bool idleGcCfg = false, hiResTimers = true;
   std::atomic<uint16_t> tlsListenerPort{0};
 
@@ -201,8 +206,9 @@ struct Hist
   // gauge: exact on the I/O thread (only this thread inserts/erases sessions)
   void gaugeCheck(const char *where, const Sess *S)
   {
-    if (!T) return;
-    size_t g = T->getStats().sessionsCurrent;
+    Transport *t = tp();
+    if (!t) return;
+    size_t g = t->getStats().sessionsCurrent;
     std::lock_guard<std::mutex> lk(mu);
     count("gauge_samples_io_thread");
     if (int64_t(g) < openAnnounced || g > (size_t(1) << 40))
@@ -216,6 +222,8 @@ struct Hist
   // ---------------------------------------------------------------- registrations
   ObsRec *addObserver(uint64_t sid, int ctx, uint64_t bseed)
   {
+    Transport *t = tp();
+    if (!t) return nullptr;
     auto up = std::make_unique<ObsRec>();
     ObsRec *O = up.get();
     O->sid = sid; O->ctx = ctx; O->bseed = bseed;
@@ -224,7 +232,7 @@ struct Hist
     if ((ctx == RC_GLOBALCLOSE || ctx == RC_OBSERVER || ctx == RC_CLEANUP) && tFan.h == this) O->regFanSid = tFan.sid;
     { std::lock_guard<std::mutex> g(mu); O->idx = uint32_t(allObs.size()); allObs.push_back(std::move(up)); }
     uint64_t s0 = stamp();
-    ObserverId tid = T->observe(sid, [this, O](SessionId s, const TransportErrorInfo &why) { onObserver(O, s, why); });
+    ObserverId tid = t->observe(sid, [this, O](SessionId s, const TransportErrorInfo &why) { onObserver(O, s, why); });
     uint64_t s1 = stamp();
     std::lock_guard<std::mutex> g(mu);
     O->regStart = s0; O->regEnd = s1; O->tid = tid;
@@ -236,8 +244,9 @@ struct Hist
   {
     ObserverId tid;
     { std::lock_guard<std::mutex> g(mu); tid = O->tid; }
-    if (!tid) return false;
-    bool r = T->unobserve(tid);
+    Transport *t = tp();
+    if (!tid || !t) return false;
+    bool r = t->unobserve(tid);
     uint64_t s = stamp();
     std::lock_guard<std::mutex> g(mu);
     (r ? O->unobsTrue : O->unobsFalse)++;
@@ -247,13 +256,15 @@ struct Hist
   }
   UdRec *setUserData(uint64_t sid, int ctx)
   {
+    Transport *t = tp();
+    if (!t) return nullptr;
     auto up = std::make_unique<UdRec>();
     UdRec *U = up.get();
     U->sid = sid; U->ctx = ctx; U->data = U; // the record is its own opaque pointer
     if ((ctx == RC_GLOBALCLOSE || ctx == RC_OBSERVER || ctx == RC_CLEANUP) && tFan.h == this) U->regFanSid = tFan.sid;
     { std::lock_guard<std::mutex> g(mu); U->idx = uint32_t(allUd.size()); allUd.push_back(std::move(up)); }
     uint64_t s0 = stamp();
-    T->setSessionData(sid, U, [this, U](void *p) { onCleanup(U, p); });
+    t->setSessionData(sid, U, [this, U](void *p) { onCleanup(U, p); });
     uint64_t s1 = stamp();
     std::lock_guard<std::mutex> g(mu);
     U->regStart = s0; U->regEnd = s1;
@@ -267,12 +278,14 @@ struct Hist
   uint64_t doConnect(const std::string &host, uint16_t port, TlsMode tls, int target, std::shared_ptr<CbPlan> plan, bool fromIo,
                      bool via = false, ListenerId lid = 0)
   {
+    Transport *t = tp();
+    if (!t) return 0;
     bool gate = plan && plan->gate && !fromIo;
     if (gate) { gatePending++; gateMu.lock(); }
     uint64_t snapMax;
     { std::lock_guard<std::mutex> g(mu); inflight++; snapMax = maxId; }
     uint64_t s0 = stamp();
-    ConnectResult r = via ? T->connectViaListener(lid, host, port) : T->connect(host, port, tls);
+    ConnectResult r = via ? t->connectViaListener(lid, host, port) : t->connect(host, port, tls);
     uint64_t s1 = stamp();
     uint64_t sid = r.isOk() ? r.value() : 0;
     {
@@ -334,7 +347,7 @@ struct Hist
     uint64_t s = stamp();
     tFan = FanTls{};
     std::shared_ptr<CbPlan> plan;
-    uint16_t tlp = tlsListenerPort.load(); bool viaTls = tlp && T->getLocalAddress(sid).port == tlp;
+    uint16_t tlp = tlsListenerPort.load(); Transport *t0 = tp(); bool viaTls = tlp && t0 && t0->getLocalAddress(sid).port == tlp;
     {
       std::lock_guard<std::mutex> g(mu);
       Sess &S = sess[sid]; S.id = sid;
@@ -358,7 +371,7 @@ struct Hist
     if (plan)
     {
       cbRegistrations(sid, plan->obsAtAnnounce, plan->udAtAnnounce, RC_ANNOUNCE, plan->seed + 1);
-      if (plan->closeAtAnnounce) { T->close(sid); countL("app_close_from_announce_cb"); }
+      if (plan->closeAtAnnounce) { if (Transport *t = tp()) t->close(sid); countL("app_close_from_announce_cb"); }
     }
     ioExit();
   }
@@ -396,7 +409,7 @@ struct Hist
     if (plan && !hsOnly)
     {
       cbRegistrations(sid, plan->obsAtAnnounce, plan->udAtAnnounce, RC_ANNOUNCE, plan->seed + 1);
-      if (plan->closeAtAnnounce) { T->close(sid); countL("app_close_from_announce_cb"); }
+      if (plan->closeAtAnnounce) { if (Transport *t = tp()) t->close(sid); countL("app_close_from_announce_cb"); }
     }
     ioExit();
   }
@@ -412,7 +425,7 @@ struct Hist
     tFlush.h = this; tFlush.startSeq = stamp(); tFlush.afterClose = 0;
     { std::lock_guard<std::mutex> g(mu); sess[sid].tr(m == ReadMode::Sync ? "mode=S" : m == ReadMode::Async ? "mode=A" : "mode=D", tFlush.startSeq); }
     bool ok = false;
-    try { ok = T->setReadMode(sid, m); } catch (const std::exception &) { countL("readmode_set_threw"); }
+    try { if (Transport *t = tp()) ok = t->setReadMode(sid, m); } catch (const std::exception &) { countL("readmode_set_threw"); }
     tFlush.h = nullptr;
     if (m != ReadMode::Async)
     {
@@ -475,15 +488,22 @@ struct Hist
       if (!inFlush && !S.firstDataDone) { S.firstDataDone = true; first = true; plan = S.plan; }
     }
     if (inFlush) { cv.notify_all(); return; }
+    if (doomArmed.load())
+    {
+      // the application drops its LAST reference from inside this callback: ~Transport runs on the I/O thread
+      std::shared_ptr<Transport> o;
+      { std::lock_guard<std::mutex> g(mu); o = std::move(doomOwner); doomOwner.reset(); }
+      if (o) { Traw = nullptr; countL("teardown_drop_last_owner_in_callback"); o.reset(); doomDone = true; }
+    }
     if (first && plan)
     {
       cbRegistrations(sid, plan->obsAtData, plan->udAtData && plan->udCallbacks, RC_DATA, plan->seed + 2);
       if (plan->unobsAtData) { if (ObsRec *o = firstLiveObserver(sid)) tryUnobserve(o, "in_data_cb"); }
-      if (plan->closeAtData) { T->close(sid); countL("app_close_from_data_cb"); }
+      if (plan->closeAtData) { if (Transport *t = tp()) t->close(sid); countL("app_close_from_data_cb"); }
       if (plan->modeAtData)
       {
         // the API refuses read-mode switches on the I/O thread (throws); it must not change anything
-        try { T->setReadMode(sid, ReadMode::Sync); countL("readmode_set_in_data_cb_accepted"); }
+        try { if (Transport *t = tp()) { t->setReadMode(sid, ReadMode::Sync); countL("readmode_set_in_data_cb_accepted"); } }
         catch (const std::exception &) { countL("readmode_set_in_data_cb_refused"); }
       }
     }
@@ -560,7 +580,7 @@ struct Hist
     case 6: if (spawnConnect && reconnectBudget.fetch_sub(1) > 0) { spawnConnect(true); countL("reconnect_from_observer"); } break;
     case 7: sleepMs(0.2 + double(r.below(1500)) / 1000.0); break;
     case 8: { uint64_t other = 0; { std::lock_guard<std::mutex> g(mu); for (auto &kv : sess) if (kv.second.ann && !kv.second.closes && r.chance(0.4)) { other = kv.first; break; } }
-              if (other) { T->close(other); countL("app_close_of_other_session_from_observer"); } break; }
+              if (other) { if (Transport *t = tp()) t->close(other); countL("app_close_of_other_session_from_observer"); } break; }
     default: break;
     }
     ioExit(false);
@@ -587,17 +607,19 @@ struct Hist
 
   void install()
   {
-    T->onAccept([this](SessionId s, const TransportAddress &a) { onAccept(s, a); });
-    T->onConnect([this](SessionId s, const TransportAddress &a) { onConnect(s, a); });
-    T->onData([this](SessionId s, iora::core::BufferView d, std::chrono::steady_clock::time_point) { onData(s, d); });
-    T->onClose([this](SessionId s, const TransportErrorInfo &w) { onClose(s, w); });
-    T->onError([this](TransportError, const std::string &) { countL("on_error_callbacks"); });
+    auto g = std::make_shared<Gone>(); g->f = &implGone; // released when the transport destroys its callback storage
+    T->onAccept([this, g](SessionId s, const TransportAddress &a) { onAccept(s, a); });
+    T->onConnect([this, g](SessionId s, const TransportAddress &a) { onConnect(s, a); });
+    T->onData([this, g](SessionId s, iora::core::BufferView d, std::chrono::steady_clock::time_point) { onData(s, d); });
+    T->onClose([this, g](SessionId s, const TransportErrorInfo &w) { onClose(s, w); });
+    T->onError([this, g](TransportError, const std::string &) { countL("on_error_callbacks"); });
+    Traw = T.get();
   }
 
   // ---------------------------------------------------------------- post-hoc checks after an orderly stop()
-  void finalizePhase(const char *phase)
+  void finalizePhase(const char *phase, bool haveTransport = true)
   {
-    TransportStats st = T->getStats();
+    TransportStats st; if (haveTransport) st = T->getStats();
     std::lock_guard<std::mutex> g(mu);
     uint64_t seenIds = 0, closedIds = 0, closedAnnounced = 0;
     for (auto &kv : sess)
@@ -636,7 +658,8 @@ struct Hist
       checkUserData(S);
     }
     count("ids_seen", seenIds); count("ids_closed", closedIds);
-    // gauge and counters after stop()
+    // gauge and counters after stop() (not available when the transport object itself is gone)
+    if (!haveTransport) { count("final_checks"); count("final_checks_after_transport_destroyed"); return; }
     if (st.sessionsCurrent != 0)
       viol(K("gauge-nonzero-at-end:after-stop"), "getStats().sessionsCurrent is not 0 after stop() returned", nullptr,
            "\"gauge\":" + std::to_string(int64_t(st.sessionsCurrent)) + ",\"phase\":\"" + phase + "\"");
